@@ -80,10 +80,12 @@ CLAIMS = {
             'on every run; value semantics of the IR in ClirSem.v, traps on zero divisors modelled) defines the destination register to exactly the ISA value, and never '
             'traps; theorem C04_jump_conditions: for each of the 44 conditional jumps (the shared arm partially evaluated per opcode) the value handed to brif is '
             'non-zero iff the ISA condition holds; theorem C04_memory_accesses: each of the 22 load / store / atomic-add arms performs the ISA access (kind, width, '
-            'effective address, value modulo width, zero-extended result, destination). Block structure, the load / store instructions themselves (their bounds check is C11), helper calls and Cranelift code generation are not modelled: compiled code is executed '
+            'effective address, value modulo width, zero-extended result, destination); C04_byte_swaps / C04_wide_load / C04_helper_call_shape: le/be at 16, 32, 64 bits and lddw '
+            'define the ISA value (lddw without intermediate overflow), helper calls are keyed by the unsigned immediate, take r1..r5 and define r0, local calls are refused. '
+            'Block structure (which block brif targets), what a called helper does and Cranelift code generation are not modelled: compiled code is executed '
             'against the interpreter (= ISA by C01) on the same corpus as C03; programs with local calls must be refused (ERR) by compilation. This search found that '
             'every 64-bit conditional jump was compiled as its 32-bit variant (fixed: 742bb11).',
-            'IR semantics hand-modelled; IR -> machine code trusted; non-ALU arms by differential execution.'),
+            'IR semantics hand-modelled; IR -> machine code trusted; block structure by differential execution.'),
     'C11': ('proof', 'Theorem C11_bounds_check: the IR that cranelift.rs builds in insert_bounds_check (regenerated into Coq on every run, over a value semantics of '
             'iconst/iadd/icmp/band/bor/trapz) lets execution continue iff the access [a, a+size), a = (base+offset) mod 2^64, does not wrap and lies entirely in the '
             'stack, the packet (when present) or the metadata buffer (when present) -- for every base, offset, width and region layout; C11_regions: the region '
